@@ -449,14 +449,16 @@ func importObligations(p *Prog, l *Ledger, from, as string, keep func(o *Obligat
 	}
 	sub := runSub(orig, from, rs, l.Tier)
 	if orig.Variant == "" && rc.repo != "" && len(sub.infraErrs) == 0 {
-		if open := sub.Unlisted(rc.verif, rs.floors); len(open) > 0 {
+		// (no vacuity floors in a nested run: rules fed by an import that the active chain skips are legitimately empty
+		// here; the importing rule has its own floor, and the imported property its own top-level run)
+		if open := sub.Unlisted(rc.verif, nil); len(open) > 0 {
 			keepSet := loadHelperBaseline(rc.verif)
 			for k := range sub.claimed {
 				keepSet[k] = true
 			}
 			if pv, _, _ := variantFor(keepSet); pv != nil {
 				sv := runSub(pv, from, rs, l.Tier)
-				if len(sv.infraErrs) == 0 && len(sv.Unlisted(rc.verif, rs.floors)) == 0 {
+				if len(sv.infraErrs) == 0 && len(sv.Unlisted(rc.verif, nil)) == 0 {
 					l.Note("the obligations imported from %s were decided on the equivalent program variant (helpers not in helpers_baseline.txt inlined): %d were open on the program as written", from, len(open))
 					sub = sv
 				} else {
